@@ -549,6 +549,11 @@ impl<F: Field + PrimeCharacteristicRing + Copy, const D: usize> AluAir<F, D> {
                             let mut step = 0usize;
                             let mut acc = prev_ext;
                             for s in 0..num_int {
+                                // A chain packed with fewer than `K_max` steps has fewer
+                                // intermediates; the remaining (unselected) columns stay zero.
+                                if step >= k {
+                                    break;
+                                }
                                 let i0 = *first_idx + step;
                                 let i1 = *first_idx + step + 1;
                                 let v0 = &trace.values[i0];
